@@ -51,7 +51,7 @@ ATTRS = ("name", "setting_kwds", "context_kwds", "min_rounds", "max_rounds", "ro
          "default_ident", "truncate_size", "truncate_error", "default_variant", "version", "block_size", "parallelism",
          "default_algs", "default_marker")
 #: attributes of the prefix wrapper OBJECT that no option changes: every derived hasher, at any depth, keeps them
-WRAPPER_OWN = ("prefix", "orig_prefix", "django_name")
+WRAPPER_OWN = ("prefix", "orig_prefix", "django_name", "ident")
 FIELD_ATTR = {"mn_d": "min_desired_rounds", "mx_d": "max_desired_rounds", "dflt": "default_rounds", "vary": "vary_rounds",
               "ssize": "default_salt_size", "ident": "default_ident", "trunc": "truncate_error",
               "variant": "default_variant", "version": "version", "bsize": "block_size", "par": "parallelism",
